@@ -22,7 +22,7 @@ import (
 //   (b) PostStop is entered at most once per incarnation
 //   (c) no Receive-enter after PostStop-enter of the incarnation
 //   (d) never a Receive and a PostStop of the same actor open at the same time on different goroutines
-// Every stop path of the statement is a scenario: PoisonPill, Kill / parent.Stop(child) from outside
+// Every stop path of the statement is a scenario: PoisonPill, Kill / PID.Shutdown / parent.Stop(child) from outside
 // and from another actor's turn, parent stop, system stop, supervisor Stop directive, passivation
 // deadline, Restart.  Signatures carry the clause and the stop path that ran the PostStop.
 
@@ -88,6 +88,12 @@ func lfOpPoison(target string) *lfOp {
 func lfOpKill(target string) *lfOp {
 	return &lfOp{label: "kill(" + target + ")", kind: "kill", touches: []string{target},
 		run: func(w *lfWorld) string { return lfErrClass(w.sys.Kill(c06Ctx, target)) }}
+}
+
+// lfOpShutdown: the public PID.Shutdown called from a client goroutine.
+func lfOpShutdown(target string) *lfOp {
+	return &lfOp{label: "shutdown(" + target + ")", kind: "shutdown", touches: []string{target},
+		run: func(w *lfWorld) string { return lfErrClass(w.pid(target).Shutdown(c06Ctx)) }}
 }
 
 func lfOpStopChild(parent, child string) *lfOp {
@@ -193,6 +199,8 @@ func c06Build(name string, paths []string, tells int, forceParent bool) c06Scn {
 				op = lfOpPoison("a")
 			case "kill":
 				op = lfOpKill("a")
+			case "shutdown":
+				op = lfOpShutdown("a")
 			case "stop-child":
 				op = lfOpStopChild("p", "a")
 			case "stop-child-inturn":
@@ -278,16 +286,8 @@ func c06Build(name string, paths []string, tells int, forceParent bool) c06Scn {
 func c06Scenarios() []c06Scn {
 	nt := vsched.Pick(3, 4)
 	var out []c06Scn
-	single := []string{"poisonpill", "kill", "stop-child", "stop-child-inturn", "parent-stop", "system-stop", "supervisor-stop", "self-shutdown", "passivation", "restart"}
-	for _, p := range single {
-		n := nt
-		if p == "supervisor-stop" || p == "self-shutdown" || p == "restart" || p == "passivation" {
-			n = nt - 1
-		}
-		out = append(out, c06Build(p, []string{p}, n, false))
-	}
 	// every pair of stop paths racing on the same actor (child "a" of "p"), one (thorough: two) user message(s)
-	pl := []string{"poisonpill", "kill", "stop-child", "stop-child-inturn", "parent-stop", "system-stop", "supervisor-stop", "self-shutdown", "passivation", "restart"}
+	pl := []string{"poisonpill", "kill", "shutdown", "stop-child", "stop-child-inturn", "parent-stop", "system-stop", "supervisor-stop", "self-shutdown", "passivation", "restart"}
 	for i := 0; i < len(pl); i++ {
 		for j := i; j < len(pl); j++ {
 			if i == j && (pl[i] == "restart" || pl[i] == "passivation" || pl[i] == "system-stop") {
@@ -323,6 +323,17 @@ func c06Scenarios() []c06Scn {
 			return hook == "pre" || c06Policy(a, hook, msg)
 		}
 	}})
+
+	// the single-path scenarios are the largest: they come last so that they inherit the time the small
+	// ones leave over (ExploreAll hands unused budget to later scenarios)
+	single := []string{"self-shutdown", "restart", "supervisor-stop", "passivation", "poisonpill", "kill", "shutdown", "stop-child", "stop-child-inturn", "system-stop", "parent-stop"}
+	for _, p := range single {
+		n := nt
+		if p == "supervisor-stop" || p == "self-shutdown" || p == "restart" || p == "passivation" {
+			n = nt - 1
+		}
+		out = append(out, c06Build(p, []string{p}, n, false))
+	}
 	return out
 }
 
@@ -460,5 +471,5 @@ func TestVerifC06(t *testing.T) {
 			Run: c06Run(t, sc),
 		})
 	}
-	vsched.ExploreAll(scs)
+	lfExploreAll(scs)
 }
